@@ -3,8 +3,8 @@ import KrroodVerif.Model.Descriptor
 import KrroodVerif.Drive.C15
 /-!
 C16 driver. Case: `(w <schema and objs as in C15> (field f) (obj a) (init x…) (ops (append x) (extend x…)
-(insert i x) (setitem i x) (assign x…) (assignSelf) (iadd x…) (iaddAlias x…)))` (`add`/`update` are accepted as
-synonyms of `append`/`extend` for set fields).
+(insert i x) (setitem i x) (assign x…) (assignSelf) (iadd x…) (iaddAlias x…) (remove x) (discard x) (pop) (pop i)
+(delitem i) (delslice i j) (clear)))` (`add`/`update` are accepted as synonyms of `append`/`extend` for set fields).
 Output `C[contents]|R[f:s:t,…]`: contents in order for a list field, sorted for a set field; relation triples sorted.
 `model=` is the code as it is (every recorded quirk is repaired: all quirks off); `before_fix=` /
 `before_slice_fix=` show earlier behaviour and are not admissible alternatives.
@@ -39,6 +39,13 @@ def parseCOp : Sexp → Option COp
   | .list [.atom "assignSelf"] => some .assignSelf
   | .list (.atom "iadd" :: xs) => do pure (.iadd (← parseNats xs))
   | .list (.atom "iaddAlias" :: xs) => do pure (.iaddAlias (← parseNats xs))
+  | .list [.atom "remove", x] => do pure (.remove (← x.asNat?))
+  | .list [.atom "discard", x] => do pure (.discard (← x.asNat?))
+  | .list [.atom "pop"] => some (.pop none)
+  | .list [.atom "pop", i] => do pure (.pop (some (← i.asInt?)))
+  | .list [.atom "delitem", i] => do pure (.delitem (← i.asInt?))
+  | .list [.atom "delslice", i, j] => do pure (.delslice (← parseBound i) (← parseBound j))
+  | .list [.atom "clear"] => some .clear
   | _ => none
 
 def showContents (isSet : Bool) (c : List Nat) : String :=
@@ -55,6 +62,15 @@ def elems : COp → List Nat
   | .assign xs => xs | .assignSelf => [] | .iadd xs => xs | .iaddAlias xs => xs
   | .assignView (.chain xs) => xs | .assignView _ => []
   | .setslice _ _ _ xs => xs
+  | .remove x => [x] | .discard x => [x]
+  | .pop _ => [] | .delitem _ => [] | .delslice _ _ => [] | .clear => []
+
+/-- the removing operations do not raise (Python semantics, along the specification run): `remove` finds an equal
+element, `pop` / `del c[i]` an index in range -/
+def removalsDefined (key : Nat → Nat) (isSet : Bool) (σ0 : CState) (ops : List COp) : Bool :=
+  (ops.foldl (fun (acc : CState × Bool) op =>
+    (specStepC key isSet acc.1 op,
+     acc.2 && (match op with | .setitem _ _ => true | _ => op.defined key acc.1.c))) (σ0, true)).2
 
 def parseTOp : Sexp → Option TOp
   | .list [.atom "adopt"] => some .adopt
@@ -129,7 +145,8 @@ def run (s : Sexp) : String :=
       let key := parseKey items
       let dead := droppedOf raw
       let wf := wf && !dead.contains a &&
-        dropsOk key isSet (specC key isSet ⟨[], []⟩ (init.map .append)) raw
+        dropsOk key isSet (specC key isSet ⟨[], []⟩ (init.map .append)) raw &&
+        removalsDefined key isSet (specC key isSet ⟨[], []⟩ (init.map .append)) ops
       if !wf then "error=ill-formed-case" else
       let R := schemaRules S W
       let fuel := fuelFor S W
